@@ -13,6 +13,8 @@ import (
 var c18Commands = [][]string{
 	{"print"}, {"print", "--with-totals"}, {"total", "--diff"}, {"report", "--diff"}, {"report", "-a", "w", "--fill"}, {"report", "-a", "m", "--chart"},
 	{"tags", "-v", "-c"}, {"tags"}, {"today", "--diff", "--now"}, {"today"},
+	// flags that change WHAT is printed must do so alike with and without styling
+	{"total", "--diff", "--decimal"}, {"report", "--diff", "--decimal"}, {"tags", "--decimal"}, {"today", "--diff", "--decimal"},
 }
 var c18Tabular = map[string]bool{"report": true, "tags": true, "today": true}
 
